@@ -381,7 +381,7 @@ func ruleBlockFilters(c *Ctx, r *Report, prefix string) {
 		for _, b := range c.GB(nbw) {
 			for _, ins := range b.Instrs {
 				if st, ok := ins.(*ssa.Store); ok {
-					if fa, isFA := st.Addr.(*ssa.FieldAddr); isFA && fieldOfAddr(fa).Name() == "dictCap" && isFieldLoadOf(st.Val, fDictCap) {
+					if fa, isFA := st.Addr.(*ssa.FieldAddr); isFA && refNameOf(fieldOfAddr(fa)) == "dictCap" && isFieldLoadOf(st.Val, fDictCap) {
 						okBuild = true
 					}
 				}
@@ -424,7 +424,7 @@ func ruleBlockFilters(c *Ctx, r *Report, prefix string) {
 	for _, b := range c.GB(filters) {
 		for _, ins := range b.Instrs {
 			if st, ok := ins.(*ssa.Store); ok {
-				if fa, isFA := st.Addr.(*ssa.FieldAddr); isFA && fieldOfAddr(fa).Name() == "dictCap" && isFieldLoadOf(st.Val, fDictCap) {
+				if fa, isFA := st.Addr.(*ssa.FieldAddr); isFA && refNameOf(fieldOfAddr(fa)) == "dictCap" && isFieldLoadOf(st.Val, fDictCap) {
 					okF = true
 				}
 			}
